@@ -674,6 +674,23 @@ func (m *collection) appendChildLLSnapshot(dst *segmentStack,
 		var childSnap Snapshot
 		if src != nil {
 			childSnap, _ = src.ChildCollectionSnapshot(cName)
+
+			// A child collection that was deleted and created again
+			// under the same name must not see the persisted entries
+			// of its previous incarnation.
+			var childIncarNum uint64
+			switch cs := childSnap.(type) {
+			case *Footer:
+				childIncarNum = cs.incarNum
+			case *segmentStack:
+				childIncarNum = cs.incarNum
+			default:
+				childIncarNum = childCollection.incarNum
+			}
+			if childSnap != nil && childIncarNum != childCollection.incarNum {
+				childSnap.Close()
+				childSnap = nil
+			}
 		}
 
 		dst.childSegStacks[cName] =
